@@ -281,6 +281,19 @@ def _run(case: dict, env: core.Env, fs: Any, r: random.Random) -> None:
                     env.count("merge_statements")
             else:
                 sql = f"SELECT M FROM {nsql}"
+                y = r.random()
+                if y < 0.2:  # the same name inside a CTE, a derived table, or next to a fully qualified one
+                    sql = f"WITH c AS (SELECT M FROM {nsql}) SELECT M FROM c"
+                elif y < 0.3:
+                    sql = f"WITH c AS (SELECT 1 AS ONE) SELECT t.M FROM c JOIN {nsql} t ON 1 = 1"
+                elif y < 0.4:
+                    sql = f"SELECT M FROM (SELECT M FROM {nsql}) d"
+                elif y < 0.55:
+                    # after a fully qualified table of the same statement
+                    full = [(d_, s_, t_) for d_, ss in cat.items() for s_, ts in ss.items() for t_, k_ in ts.items() if k_ == "table"]
+                    if full:
+                        fd, fsch, ft = full[r.randrange(len(full))]
+                        sql = f"SELECT t.M FROM (SELECT COUNT(*) AS N FROM {fd}.{fsch}.{ft}) q JOIN {nsql} t ON q.N >= 0"
             if errno:
                 fail = (lvl, errno)
             elif op in ("create_table", "create_view"):
